@@ -25,6 +25,8 @@ BUDGET = {'quick': 40, 'thorough': 900}
 MIN_NONTRIVIAL = {'quick': 1000, 'thorough': 50000}
 
 HOSTILE = [
+    "x '''abc\ndef'''\n", "values = (1\n 2)\n", "y = 1\nx = [1,\n     2\n     3]\n", "print('a'\n      'b' 'c'\n      d e)\n", "f(a,\n  b c,\n  d)\n", 'x = """abc\ndef\n',
+    "def f():\n    return (1,\n            2 3)\n", "x\ry(", "a = 1\rb = (\r",
     "x = '\ud800'\n", "\ud800 = 1\n", "# comment \udfff\nx = 1\n", "print('a')\nname_\udc80 = 2\n", "-" * 100000 + "1", "x = " + "not " * 60000 + "True\n",
     "y = 1\nx = " + "~" * 90000 + "1\n", "(" * 5000 + "1" + ")" * 5000, "[" * 3000 + "]" * 3000, "x = " + "1 + " * 100000 + "1\n", "a" + ".b" * 100000 + "\n",
     "x = " + "f(" * 2000 + ")" * 2000 + "\n", "if x:\n" * 150 + "pass\n",
@@ -112,6 +114,15 @@ def check_text(ctx, text, origin, mode):
         report = MAIN_REPORT
         clear_report()
         call = lambda: (set_source(text), report['source']['success'])[1]
+    elif mode == 'set_source-other-filename':
+        report = MAIN_REPORT
+        clear_report()
+        call = lambda: (set_source(text, filename='student_work.py'), report['source']['success'])[1]
+    elif mode == 'verify-given-code-and-filename':
+        # another (longer, or shorter) file is the submission; the text is checked on its own under a name of its own
+        report = MAIN_REPORT
+        contextualize_report('first = 1\n' * (3 if len(text) % 2 else 0) + 'kept = 2\n')
+        call = lambda: verify(text, filename='fragment.py')
     else:
         report = MAIN_REPORT
         contextualize_report(text)
@@ -208,7 +219,7 @@ def check_text(ctx, text, origin, mode):
                     'line': getattr(syn_cat[0].location, 'line', None) if syn_cat else None})
 
 
-MODES = ['verify', 'verify', 'set_source', 'private', 'section']
+MODES = ['verify', 'verify', 'set_source', 'private', 'section', 'set_source-other-filename', 'verify-given-code-and-filename']
 SECTION_PREFIXES = ['a = 1\rb = 2\n', 'a = 1\r\nb = 2\r\n', 'x = 1\r\r\ny = 2\n', '', 'a = 1\n', 'a = 1\nb = 2\n\n', '# page\x0cbreak\nx = "\x0c"\n', 'import math\n\n\n\n',
                     's = "\u2028"\nt = "\x1c\x1d"\n', '\n\n', 'def f():\n    return 1\n']
 
